@@ -344,3 +344,45 @@ def urljoin_lemma(prop="C16"):
         r.witness = {"counterexamples": (bad or nos)[:3]}
         r.replay = {"confirmed": True, "actual": (bad or nos)[:3], "how": "urllib.parse.urljoin"}
     return [r]
+
+
+def find_used_modules_recursion(prop="C06", replay=None):
+    """find_used_modules reaches every scope that can hold USE statements below the entity it is given: its contained procedures (`entity.routines`) and, for every interface
+    block, the single procedure of a non-generic block (`interface.procedure`) or each interface body of a generic block (`interface.routines`).  A scope that is not
+    visited keeps the *names* of the modules it uses, and FortranCodeUnit.correlate skips those: nothing is imported there."""
+    import ast
+    from harness import loader
+    from harness.core import OR, PROVED, REFUTED, UNKNOWN
+    fn = loader.find_def("ford.fortran_project", "find_used_modules")
+    out = []
+
+    def recursive_call_on(node, arg):
+        return any(isinstance(c, ast.Call) and isinstance(c.func, ast.Name) and c.func.id == "find_used_modules" and c.args and ast.unparse(c.args[0]) == arg for c in ast.walk(node))
+    loops = [n for n in fn.body if isinstance(n, ast.For)]
+    r_loop = [l for l in loops if ast.unparse(l.iter) == "entity.routines" and isinstance(l.target, ast.Name) and recursive_call_on(l, l.target.id)]
+    ok = len(r_loop) == 1
+    out.append(OR(id=f"{prop}.S.find_used_modules.recurses_into_contained_procedures", status=PROVED if ok else REFUTED, kind="S", role="post", backend="ast",
+                  target="ford.fortran_project.find_used_modules", desc="`for procedure in entity.routines: find_used_modules(procedure, ...)` at the top level of the function"))
+    i_loop = [l for l in loops if "interfaces" in ast.unparse(l.iter) and isinstance(l.target, ast.Name)]
+    ok1 = ok2 = False
+    if len(i_loop) == 1:
+        v = i_loop[0].target.id
+        # the procedure of the block, read directly or through a name bound to it inside the loop (`if procedure := getattr(interface, "procedure", None)`)
+        aliases = [f"{v}.procedure"]
+        for n in ast.walk(i_loop[0]):
+            tgt, val = (n.target, n.value) if isinstance(n, ast.NamedExpr) else ((n.targets[0], n.value) if isinstance(n, ast.Assign) and len(n.targets) == 1 else (None, None))
+            if isinstance(tgt, ast.Name) and val is not None and (f"{v}.procedure" in ast.unparse(val) or f"getattr({v}, 'procedure'" in ast.unparse(val)):
+                aliases.append(tgt.id)
+        ok1 = any(recursive_call_on(i_loop[0], a) for a in aliases)
+        inner = [n for n in ast.walk(i_loop[0]) if isinstance(n, ast.For) and ast.unparse(n.iter) == f"{v}.routines" and isinstance(n.target, ast.Name) and recursive_call_on(n, n.target.id)]
+        ok2 = len(inner) == 1
+    for tag, okx, what in (("the_procedure_of_a_non_generic_interface", ok1, "`find_used_modules(interface.procedure, ...)`"),
+                           ("the_bodies_of_a_generic_interface", ok2, "`for procedure in interface.routines: find_used_modules(procedure, ...)`")):
+        r = OR(id=f"{prop}.S.find_used_modules.recurses_into_{tag}", status=PROVED if okx else REFUTED, kind="S", role="post", backend="ast", target="ford.fortran_project.find_used_modules",
+               desc=f"{what} inside the loop over the entity's interface blocks")
+        if not okx:
+            r.detail = "USE statements in those interface bodies are never matched to module objects: nothing is imported into them"
+            if replay:
+                r.replay = replay()
+        out.append(r)
+    return out
